@@ -147,7 +147,12 @@ def run(ctx):
                         psep = None
                 else:
                     psep = None
-                parser = default if psep is None else P.isoparser(sep=psep)
+                try:
+                    parser = default if psep is None else P.isoparser(sep=psep)
+                except Exception as e:
+                    ctx.ev()
+                    ctx.violation('separator-rejected', {'sep': psep}, 'isoparser(sep=%r) raised %s: %s' % (psep, type(e).__name__, e))
+                    continue
                 text, exp, off = render_iso.render(dt, spec)
                 h24 = 'T24' in text.replace(spec['sep'], 'T', 1) if spec['prec'] != 'date' else False
                 if h24:
@@ -171,6 +176,31 @@ def run(ctx):
                 time_only(ctx, default, tz, rng, dt)
             else:
                 tz_only(ctx, default, tz, rng)
+        # directed: every ASCII character that is not a digit can be configured as the separator; the parser then reads its
+        # own separator and no other
+        if ctx.shard == 0:
+            for code in range(128):
+                c = chr(code)
+                if c.isdigit():
+                    continue
+                for sep in (c,):
+                    ctx.ev()
+                    ctx.count('configured_separator_sweep')
+                    case = {'sep': repr(sep), 'workload': 'separator-sweep'}
+                    try:
+                        p = P.isoparser(sep=sep)
+                    except Exception as e:
+                        ctx.violation('separator-rejected', case, 'isoparser(sep=%r) raised %s: %s' % (sep, type(e).__name__, e))
+                        continue
+                    for text, exp in (('2014-01-02%s10:30:15' % c, D.datetime(2014, 1, 2, 10, 30, 15)), ('20140102%s1030' % c, D.datetime(2014, 1, 2, 10, 30)),
+                                      ('2014-W01-4%s10' % c, D.datetime(2014, 1, 2, 10))):
+                        r = call(p.isoparse, text)
+                        if r[0] == 'exc' or r[1] != exp:
+                            ctx.violation('own-separator-not-read', dict(case, text=text), 'got %r' % (r[1],))
+                    other = 'T' if c != 'T' else ' '
+                    r = call(p.isoparse, '2014-01-02%s10:30:15' % other)
+                    if not (r[0] == 'exc' and isinstance(r[1], ValueError)):
+                        ctx.violation('foreign-separator-read', dict(case, text='2014-01-02%s10:30:15' % other), 'got %r' % (r[1],))
         ctx.note('entry points monitored for soundness too', list(mon_iso.ENTRIES))
     finally:
         uninstall()
